@@ -53,12 +53,16 @@ Max(S) == CHOOSE x \in S : \A y \in S : x >= y
 (* the scanner step function: which rule applies in a scanner state, and the state it leads to *)
 St0 == [pos |-> 1, quote |-> 0, cur |-> <<>>, toks |-> <<>>, intok |-> FALSE, done |-> FALSE]
 
-ScanNext(dd, ss, st) ==
+\* The special characters are a parameter of the scanner: spiftool_split and the word utilities use the stock ones, a tok object
+\* carries its own (spif_tok_set_quote / _set_dquote / _set_escape; every initialiser AND spif_tok_done() put the stock ones back).
+StockChars == [q |-> SQ, dq |-> DQ, esc |-> BS]
+IsQuoteOf(cf, c) == c = cf.q \/ c = cf.dq
+ScanNextC(cf, dd, ss, st) ==
     LET c == At(ss, st.pos)
         atEnd == st.pos > Len(ss)
         inTokCh == ~atEnd /\ (st.quote # 0 \/ ~IsDelim(dd, c))        \* this character belongs to a token
         n == IF atEnd THEN NUL ELSE At(ss, st.pos + 1)
-        esc == inTokCh /\ c = BS /\ n # NUL /\ (IsDelim(dd, n) \/ (st.quote # 0 /\ n = st.quote))
+        esc == inTokCh /\ c = cf.esc /\ n # NUL /\ (IsDelim(dd, n) \/ (st.quote # 0 /\ n = st.quote))
     IN
     IF st.done THEN [kind |-> "Stop", st |-> st]
     ELSE IF atEnd /\ ~st.intok THEN [kind |-> "Finish", st |-> [st EXCEPT !.done = TRUE]]
@@ -66,16 +70,18 @@ ScanNext(dd, ss, st) ==
          THEN [kind |-> "EndToken",                                        \* C: an open quote ends with the text
                st |-> [st EXCEPT !.toks = Append(st.toks, st.cur), !.cur = <<>>, !.intok = FALSE, !.quote = 0]]
     ELSE IF ~inTokCh THEN [kind |-> "SkipDelim", st |-> [st EXCEPT !.pos = st.pos + 1]]
-    ELSE IF IsQuoteCh(c) /\ st.quote = 0
+    ELSE IF IsQuoteOf(cf, c) /\ st.quote = 0
          THEN [kind |-> "OpenQuote", st |-> [st EXCEPT !.quote = c, !.pos = st.pos + 1, !.intok = TRUE]]          \* S
-    ELSE IF IsQuoteCh(c) /\ st.quote = c
+    ELSE IF IsQuoteOf(cf, c) /\ st.quote = c
          THEN [kind |-> "CloseQuote", st |-> [st EXCEPT !.quote = 0, !.pos = st.pos + 1]]                        \* S
-    ELSE IF IsQuoteCh(c)
+    ELSE IF IsQuoteOf(cf, c)
          THEN [kind |-> "OtherQuoteLiteral", st |-> [st EXCEPT !.cur = Append(st.cur, c), !.pos = st.pos + 1]]   \* C
     ELSE IF esc
          THEN [kind |-> "EscapedDelimOrQuote",                                                                   \* S
                st |-> [st EXCEPT !.cur = Append(st.cur, n), !.pos = st.pos + 2, !.intok = TRUE]]
     ELSE [kind |-> "Plain", st |-> [st EXCEPT !.cur = Append(st.cur, c), !.pos = st.pos + 1, !.intok = TRUE]]
+
+ScanNext(dd, ss, st) == ScanNextC(StockChars, dd, ss, st)
 
 RECURSIVE ScanRun(_, _, _)
 ScanRun(dd, ss, st) == IF st.done THEN st ELSE ScanRun(dd, ss, ScanNext(dd, ss, st).st)
@@ -85,6 +91,10 @@ Split(dd, ss) == ScanRun(dd, ss, St0).toks
 \* C01's ideal trim: all leading and trailing white space goes; an all-blank text becomes empty
 Trim(t) == LET I == {k \in 1 .. Len(t) : ~IsSpace(t[k])} IN IF I = {} THEN <<>> ELSE SubSeq(t, Min(I), Max(I))
 TokEval(dd, ss) == LET ts == Split(dd, ss) IN [i \in 1 .. Len(ts) |-> Trim(ts[i])]
+\* the same with a tok object's own special characters
+RECURSIVE ScanRunC(_, _, _, _)
+ScanRunC(cf, dd, ss, st) == IF st.done THEN st ELSE ScanRunC(cf, dd, ss, ScanNextC(cf, dd, ss, st).st)
+TokEvalC(cf, dd, ss) == LET ts == ScanRunC(cf, dd, ss, St0).toks IN [i \in 1 .. Len(ts) |-> Trim(ts[i])]
 
 RECURSIVE JoinFrom(_, _, _)
 JoinFrom(sep, ts, i) == IF i > Len(ts) THEN <<>> ELSE sep \o ts[i] \o JoinFrom(sep, ts, i + 1)
